@@ -623,7 +623,23 @@ macro_rules! pex {
     (@small $name:expr, $p:expr, $t:expr, $rng:expr, $out:expr) => {{
         let n = word($t, $rng);
         let mut r = $p;
-        if $t.chance(1, 2) {
+        if $t.chance(1, 3) {
+            // the in-place forms (public API of their own)
+            $out.probe("probe.apitrace.point_in_place_variants");
+            let sb = bytes_biased($t, $rng, 40);
+            let sc = Scalar::decode_reduce(&sb);
+            match $t.usize(6) {
+                0 => r.set_double(),
+                1 => r.set_xdouble($t.usize(5) as u32),
+                2 => r.set_mul(&sc),
+                3 => r.set_mulgen(&sc),
+                4 => r.set_neg(),
+                _ => {
+                    let sb2 = bytes_biased($t, $rng, 40);
+                    r.set_mul_add_mulgen_vartime(&sc, &Scalar::decode_reduce(&sb2));
+                }
+            }
+        } else if $t.chance(1, 2) {
             r.set_mul_small(n);
             $out.ev(format_args!("{} mul_small({:#x})", $name, n));
         } else {
@@ -636,7 +652,14 @@ macro_rules! pex {
     (grp, $name:expr, $p:expr, $q:expr, $s:expr, $u:expr, $t:expr, $rng:expr, $out:expr) => {{
         let ctl = if $t.chance(1, 2) { 0xFFFF_FFFFu32 } else { 0 };
         let mut r = $p;
-        r.set_condneg(ctl);
+        match $t.usize(6) {
+            0 => r.set_condneg(ctl),
+            1 => r.set_double(),
+            2 => r.set_xdouble($t.usize(5) as u32),
+            3 => r.set_mulgen(&$s),
+            4 => r.set_neg(),
+            _ => r.set_cond(&$q, ctl),
+        }
         r
     }};
     (ed25519, $name:expr, $p:expr, $q:expr, $s:expr, $u:expr, $t:expr, $rng:expr, $out:expr) => {{
